@@ -406,7 +406,7 @@ Proof.
     destruct (negb (e =? 32) && negb (e =? 9)) eqn:Ee; [now left|].
     split; [reflexivity|]. split; [lia|]. split; [|cbn [length]; lia].
     apply (ends_suffix [13; 10; e] s3). exact Hends.
-  - destruct (c =? 10) eqn:E10.
+  - cbn [hdz tlz]. destruct (c =? 10) eqn:E10.
     + (* LF *)
       assert (Hc : c = 10) by lia. subst c.
       destruct s' as [|e s3].
@@ -474,4 +474,225 @@ Proof.
            { cbn [qd_run]. rewrite Eq. now rewrite andb_false_r. }
            rewrite Hr. cbn [fst snd app hdz].
            rewrite (bad_ctl_not_qd c Eq E34 E92 E13 E10). now left.
+Qed.
+
+Lemma pqs_loop_local : forall f1 f2 s after k len val,
+  k + lenN s = len -> (hdz after =? 34) = false -> (s = [] \/ ends_nonspace s) ->
+  (length (s ++ after) < f1)%nat -> (length s < f2)%nat ->
+  pqs_loop f1 (s ++ after) k len val = pqs_loop f2 s k len val.
+Proof.
+  induction f1 as [|f1 IH]; intros f2 s after k len val Hk Ha Hends H1 H2; [lia|].
+  destruct f2 as [|f2]; [lia|]. cbn [pqs_loop].
+  pose proof (pqs_iter_local s after k len val Hk Ha Hends) as Hit.
+  destruct (pqs_iter s k len val) as [r|s' k' v].
+  - destruct Hit as [->|(-> & v & Hv)]; [reflexivity|]. rewrite Hv.
+    destruct s as [|c s0].
+    { cbn [app lenN] in *. assert (k = len) by lia. subst k. rewrite (pqs_iter_end after len val Ha) in Hv. discriminate. }
+    destruct f1 as [|f1]; [cbn [app length] in H1; lia|].
+    cbn [pqs_loop]. now rewrite (pqs_iter_end after len v Ha).
+  - destruct Hit as (-> & Hk' & Hends' & Hlen).
+    apply IH; try assumption; [rewrite app_length in *; lia|lia].
+Qed.
+
+Lemma after_item_noquote more : after_item more -> (hdz more =? 34) = false.
+Proof.
+  intros (ws & rest & -> & Hws & Hrest). destruct ws as [|c r]; cbn [app hdz].
+  - destruct Hrest as [->|(r & ->)]; reflexivity.
+  - cbn [forallb] in Hws. apply andb_prop in Hws. destruct Hws as [Hc _]. unfold is_xspace in Hc. lia.
+Qed.
+
+Lemma pqs_local arg more :
+  (arg = [] \/ ends_nonspace arg) -> after_item more ->
+  parse_quoted_string (arg ++ more) (lenN arg) = parse_quoted_string arg (lenN arg).
+Proof.
+  intros Harg Hmore. pose proof (after_item_noquote more Hmore) as Hq.
+  unfold parse_quoted_string. destruct arg as [|c a].
+  - cbn [app hdz]. rewrite Hq. reflexivity.
+  - cbn [app hdz tlz]. destruct (c =? 34); cbn [negb]; [|reflexivity].
+    apply pqs_loop_local; try assumption.
+    + cbn [lenN]. lia.
+    + apply (ends_suffix [c] a). exact Harg.
+    + cbn [length]. lia.
+    + cbn [length]. lia.
+Qed.
+
+(* ---- the loop body depends on the item only ---- *)
+Lemma dropN_app_exact {A} (a b : list A) : dropN (lenN a) (a ++ b) = b.
+Proof.
+  induction a as [|x a IH]; cbn [lenN app].
+  - destruct b; reflexivity.
+  - cbn [dropN]. replace (N.succ (lenN a) =? 0) with false by lia. now rewrite N.pred_succ.
+Qed.
+
+Lemma dropN_succ_app {A} (a : list A) x (b : list A) : dropN (lenN a + 1) (a ++ x :: b) = b.
+Proof.
+  induction a as [|y a IH]; cbn [lenN app].
+  - cbn [dropN]. replace (0 + 1 =? 0) with false by lia. replace (N.pred (0 + 1)) with 0 by lia.
+    destruct b; reflexivity.
+  - cbn [dropN]. replace (N.succ (lenN a) + 1 =? 0) with false by lia.
+    replace (N.pred (N.succ (lenN a) + 1)) with (lenN a + 1) by lia. exact IH.
+Qed.
+
+Definition step_item (st : cc) (it : bytes) : cc := cc_step st it it.
+
+Lemma cc_step_local st it tail : wf_pair (it, tail) -> cc_step st it tail = step_item st it.
+Proof.
+  intros (Hends & _ & ws & rest & -> & Hws & Hrest & Hn).
+  unfold step_item, cc_step, split_eq.
+  pose proof (span_app (fun c => negb (c =? 61)) it) as Hsp.
+  destruct (span (fun c => negb (c =? 61)) it) as [nm r] eqn:Es. cbn [fst snd] in Hsp.
+  destruct r as [|e arg]; [reflexivity|].
+  pose proof (span_stop (fun c => negb (c =? 61)) it) as Hst. rewrite Es in Hst. cbn [snd] in Hst.
+  assert (He : e = 61) by lia. subst e. clear Hst.
+  assert (Hmore : after_item (ws ++ rest)) by (exists ws, rest; tauto).
+  assert (Harg : arg = [] \/ ends_nonspace arg).
+  { apply (ends_suffix (nm ++ [61]) arg). right. rewrite <- app_assoc. cbn [app]. now rewrite Hsp. }
+  clear Es. subst it.
+  assert (Hn' : no_nul (arg ++ ws ++ rest)).
+  { rewrite <- !app_assoc in Hn. apply no_nul_app in Hn. destruct Hn as [_ Hn].
+    cbn [app] in Hn. unfold no_nul in *. cbn [forallb] in Hn. apply andb_prop in Hn. tauto. }
+  replace ((nm ++ 61 :: arg) ++ ws ++ rest) with (nm ++ 61 :: (arg ++ ws ++ rest))
+    by (rewrite <- !app_assoc; reflexivity).
+  rewrite !dropN_succ_app.
+  assert (Hlen : lenN (nm ++ 61 :: arg) - lenN nm - 1 = lenN arg).
+  { rewrite lenN_app. cbn [lenN]. lia. }
+  rewrite Hlen.
+  rewrite (parse_int_local arg (ws ++ rest) Hn' Harg Hmore).
+  rewrite (pqs_local arg (ws ++ rest) Harg Hmore).
+  reflexivity.
+Qed.
+
+Lemma fold_step_local : forall ps st, Forall wf_pair ps ->
+  fold_left step_pair ps st = fold_left step_item (map fst ps) st.
+Proof.
+  induction ps as [|[it tl] ps IH]; intros st H; [reflexivity|].
+  inversion H as [|? ? Hp Hps]; subst. cbn [fold_left map fst].
+  unfold step_pair at 2. cbn [fst snd]. rewrite (cc_step_local st it tl Hp). now apply IH.
+Qed.
+
+(* HttpHdrCc::parse = fold of the item-local loop body over strListGetItem's items *)
+Theorem cc_parse_from_items st v :
+  cc_parse_from st v = Some (fold_left step_item (list_items 44 v) st).
+Proof.
+  rewrite cc_parse_from_fold, (fold_step_local _ _ (pairs_of_wf v)), pairs_of_items. reflexivity.
+Qed.
+
+(* ====================================================================== *)
+(* Part C. the parsed object is the first-match specification over the items *)
+
+(* --- what an item says (independent of the parser state) --- *)
+Definition d_name (it : bytes) : bytes := fst (span (fun c => negb (c =? 61)) it).
+Definition d_arg (it : bytes) : option bytes :=
+  match snd (span (fun c => negb (c =? 61)) it) with [] => None | _ :: a => Some a end.
+Definition d_type (it : bytes) : N := cc_type_by_name (d_name it).
+(* a non-negative int that fits *)
+Definition d_num (it : bytes) : option Z :=
+  match d_arg it with
+  | Some a => match parse_int a with Some v => if (v <? 0)%Z then None else Some v | None => None end
+  | None => None
+  end.
+(* the quoted-string reading of the argument, if there is an argument *)
+Definition d_qs (it : bytes) : option qres :=
+  match d_arg it with Some a => Some (parse_quoted_string a (lenN a)) | None => None end.
+Definition qs_text (q : option qres) : bytes := match q with Some (QOk t) => t | _ => [] end.
+
+Definition join2 (o it : bytes) : bytes := (match o with [] => [] | o' => o' ++ [44; 32] end) ++ it.
+
+Definition step_spec (st : cc) (it : bytes) : cc :=
+  let ty := d_type it in
+  if isSet st ty && negb (ty =? CC_OTHER) then st
+  else if is_numeric_type ty then
+    match d_num it with
+    | Some v => setMask (put_num st ty v) ty true
+    | None => if ty =? CC_MAX_STALE then setValue st ty MAX_STALE_ANY true else clear_num st ty
+    end
+  else if ty =? CC_PRIVATE then
+    setMask (match d_qs it with
+             | None => with_private st []
+             | Some (QOk t) => with_private st (private_ st ++ t)
+             | Some _ => st end) ty true
+  else if ty =? CC_NO_CACHE then
+    match d_qs it with
+    | None => with_no_cache (setMask st ty true) []
+    | Some (QOk t) => with_no_cache (setMask st ty true) (no_cache st ++ t)
+    | Some _ => st
+    end
+  else if is_flag_type ty then setMask st ty true
+  else if ty =? CC_OTHER then with_other st (join2 (other st) it)
+  else st.
+
+Lemma step_item_spec st it : step_item st it = step_spec st it.
+Proof.
+  unfold step_item, cc_step, step_spec, d_type, d_num, d_qs, d_arg, d_name, split_eq, join2.
+  pose proof (span_app (fun c => negb (c =? 61)) it) as Hsp.
+  destruct (span (fun c => negb (c =? 61)) it) as [nm r] eqn:Es. cbn [fst snd] in *.
+  destruct r as [|e arg]; [reflexivity|].
+  rewrite <- Hsp at 2 4.
+  assert (He : e = 61).
+  { pose proof (span_stop (fun c => negb (c =? 61)) it) as Hst. rewrite Es in Hst. cbn [snd] in Hst. lia. }
+  subst e. rewrite !dropN_succ_app.
+  assert (Hlen : lenN it - lenN nm - 1 = lenN arg).
+  { rewrite <- Hsp, lenN_app. cbn [lenN]. lia. }
+  rewrite Hlen. cbn [negb]. reflexivity.
+Qed.
+
+(* --- projections of the setters --- *)
+Lemma isSet_setMask st id b F : isSet (setMask st id b) F = if F =? id then b else isSet st F.
+Proof.
+  unfold isSet, setMask, with_mask. cbn [cmask]. destruct b.
+  - rewrite N.setbit_eqb. rewrite (N.eqb_sym id F). destruct (F =? id); reflexivity.
+  - rewrite N.clearbit_eqb. rewrite (N.eqb_sym id F). destruct (F =? id); cbn [negb]; [apply andb_false_r|apply andb_true_r].
+Qed.
+Lemma cmask_put_num st id v : cmask (put_num st id v) = cmask st.
+Proof. unfold put_num. repeat match goal with |- context [if ?c then _ else _] => destruct c end; reflexivity. Qed.
+Lemma isSet_put_num st id v F : isSet (put_num st id v) F = isSet st F.
+Proof. unfold isSet. now rewrite cmask_put_num. Qed.
+Lemma private_put_num st id v : private_ (put_num st id v) = private_ st.
+Proof. unfold put_num. repeat match goal with |- context [if ?c then _ else _] => destruct c end; reflexivity. Qed.
+Lemma no_cache_put_num st id v : no_cache (put_num st id v) = no_cache st.
+Proof. unfold put_num. repeat match goal with |- context [if ?c then _ else _] => destruct c end; reflexivity. Qed.
+Lemma other_put_num st id v : other (put_num st id v) = other st.
+Proof. unfold put_num. repeat match goal with |- context [if ?c then _ else _] => destruct c end; reflexivity. Qed.
+Lemma get_num_put_num st id v F : is_numeric_type id = true ->
+  get_num (put_num st id v) F = if F =? id then v else get_num st F.
+Proof.
+  unfold is_numeric_type, get_num, put_num, CC_MAX_AGE, CC_S_MAXAGE, CC_MAX_STALE, CC_MIN_FRESH, CC_STALE_IF_ERROR.
+  intros H.
+  destruct (id =? 7) eqn:E7; [assert (id = 7) by lia; subst; cbn; destruct (F =? 7) eqn:EF; reflexivity|].
+  destruct (id =? 8) eqn:E8; [assert (id = 8) by lia; subst; cbn; destruct (F =? 7) eqn:EF7; [assert (F = 7) by lia; subst; reflexivity|]; destruct (F =? 8); reflexivity|].
+  destruct (id =? 9) eqn:E9; [assert (id = 9) by lia; subst; cbn;
+    destruct (F =? 7) eqn:EF7; [assert (F = 7) by lia; subst; reflexivity|];
+    destruct (F =? 8) eqn:EF8; [assert (F = 8) by lia; subst; reflexivity|]; destruct (F =? 9); reflexivity|].
+  destruct (id =? 12) eqn:E12; [assert (id = 12) by lia; subst; cbn;
+    destruct (F =? 7) eqn:EF7; [assert (F = 7) by lia; subst; reflexivity|];
+    destruct (F =? 8) eqn:EF8; [assert (F = 8) by lia; subst; reflexivity|];
+    destruct (F =? 9) eqn:EF9; [assert (F = 9) by lia; subst; reflexivity|]; destruct (F =? 12); reflexivity|].
+  destruct (id =? 10) eqn:E10; [|lia]. assert (id = 10) by lia; subst; cbn.
+  destruct (F =? 7) eqn:EF7; [assert (F = 7) by lia; subst; reflexivity|].
+  destruct (F =? 8) eqn:EF8; [assert (F = 8) by lia; subst; reflexivity|].
+  destruct (F =? 9) eqn:EF9; [assert (F = 9) by lia; subst; reflexivity|].
+  destruct (F =? 12) eqn:EF12; [assert (F = 12) by lia; subst; reflexivity|].
+  destruct (F =? 10); reflexivity.
+Qed.
+Lemma get_num_setMask st id b F : get_num (setMask st id b) F = get_num st F.
+Proof. reflexivity. Qed.
+Lemma get_num_with_private st v F : get_num (with_private st v) F = get_num st F. Proof. reflexivity. Qed.
+Lemma get_num_with_no_cache st v F : get_num (with_no_cache st v) F = get_num st F. Proof. reflexivity. Qed.
+Lemma get_num_with_other st v F : get_num (with_other st v) F = get_num st F. Proof. reflexivity. Qed.
+Lemma isSet_with_private st v F : isSet (with_private st v) F = isSet st F. Proof. reflexivity. Qed.
+Lemma isSet_with_no_cache st v F : isSet (with_no_cache st v) F = isSet st F. Proof. reflexivity. Qed.
+Lemma isSet_with_other st v F : isSet (with_other st v) F = isSet st F. Proof. reflexivity. Qed.
+
+(* --- the type of an item is a table id --- *)
+Lemma lookup_cc_in tbl name id : lookup_cc tbl name = Some id -> In id (map fst tbl).
+Proof.
+  induction tbl as [|[i n] r IH]; cbn [lookup_cc map fst]; [discriminate|].
+  destruct (lookup_cc r name) as [x|].
+  - intros H. injection H as ->. right. now apply IH.
+  - destruct (ci_eqb n name); [|discriminate]. intros H. injection H as ->. now left.
+Qed.
+Lemma type_lt_end nm : cc_type_by_name nm < CC_ENUM_END.
+Proof.
+  unfold cc_type_by_name. destruct (lookup_cc cc_table nm) as [id|] eqn:E; [|reflexivity].
+  apply lookup_cc_in in E. cbn in E. unfold CC_ENUM_END. lia.
 Qed.
